@@ -31,6 +31,8 @@ def regs_for(total, quick):
             if tag != TAGS[0]:
                 reduced.append('c06::Int<%s, %s, %s, 0, %s>::reg()' % (tag, l, r, T))
             reduced.append('c06::Int<%s, %s, %s, 1, %s>::reg()' % (tag, l, r, T))
+        for l, r in FEW:
+            reduced.append('c06::Compound<%s, %s, %s, %s>::reg()' % (tag, l, r, T))
         for f in FLOATS:
             for dst in (S8, U8, S16, S32, U32, S64, U64, S128, U128):
                 flt.append('c06::Flt<%s, %s, %s, 0, %s>::reg()' % (tag, f, dst, T))
